@@ -566,6 +566,8 @@ def patch_world(g, ctx, w):
                         else:
                             i = [id(k) for k in p['kids']].index(id(n))
                             target = node_off[id(p['kids'][i + 1])] if i + 1 < len(p['kids']) else term_off[id(p)]
+                    elif a['name'] == AT_IMPORT and ff == 0x10:
+                        target = _import_target(rng, w, u, n, pre, node_off)
                     elif a['role'] == 'ref' or ff in UNIT_REF or ff == 0x10:
                         if ff in UNIT_REF:
                             target = rng.choice(nonnull)
@@ -603,6 +605,24 @@ def patch_world(g, ctx, w):
         # a changed abbreviation changes the abbrev section as well
         rebuild_abbrev(g, ctx, w)
     raise RuntimeError('layout did not converge')
+
+
+def _import_target(rng, w, u, n, pre, node_off):
+    """where a section-relative DW_AT_import points: the top entry of a unit further on in .debug_info (what dwz emits
+    for a partial unit), else an entry further on in the same unit, else the importing entry itself -- imports never
+    form a cycle, as in real files"""
+    idx = [i for i, x in enumerate(w['info']) if x is u]
+    roots = [x['off'] + x['entries'][0][0] for i, x in enumerate(w['info']) if not idx or i > idx[0]]
+    if roots:
+        return rng.choice(roots)
+    seen = False
+    later = []
+    for (m, _, is_term) in pre:
+        if seen and not is_term:
+            later.append(node_off[id(m)])
+        if m is n and not is_term:
+            seen = True
+    return rng.choice(later) if later else node_off[id(n)]
 
 
 def regen_attr(g, w, a):
